@@ -221,6 +221,37 @@ func corpusStatements(dir string) []string {
 	return out
 }
 
+var giantSQL [2]string
+
+func pollute(round int) {
+	defer func() { _ = recover() }()
+	if giantSQL[0] == "" {
+		for k, n := range []int{70000, 260000} {
+			var sb strings.Builder
+			sb.WriteString("SELECT ")
+			for i := 0; i < n; i++ {
+				if i > 0 {
+					sb.WriteString(", ")
+				}
+				fmt.Fprintf(&sb, "%d", 100000+i)
+			}
+			giantSQL[k] = sb.String()
+		}
+	}
+	which := 0
+	if round%4 == 3 {
+		which = 1
+	}
+	if stmts, err := parser.Parse(context.Background(), strings.NewReader(giantSQL[which])); err == nil {
+		for _, st := range stmts {
+			_ = parser.Explain(st)
+		}
+		_ = parser.ExplainStatements(stmts)
+	}
+	_ = parser.ExplainStatements(nil)
+	_, _ = parser.Parse(context.Background(), strings.NewReader("SELECT (((1"))
+}
+
 func main() {
 	verbose := flag.Bool("v", false, "also report inputs that do not parse")
 	timeout := flag.Duration("timeout", 5*time.Second, "context timeout per Parse call")
@@ -241,7 +272,15 @@ func main() {
 		queue = corpusStatements(*corpus)
 	}
 	in := bufio.NewReaderSize(os.Stdin, 1<<20)
+	nIn := 0
 	for {
+		// call history: every statement is explained after some earlier calls; every 4000 inputs one of them is a call with a
+		// VERY large output (1.5 MiB / 6 MiB of EXPLAIN text), one with an empty statement list and one that fails, so that
+		// pooled buffers, memo tables or "last result" state left behind by an unusual call reach the statements that follow
+		if nIn%4000 == 0 {
+			pollute(nIn / 4000)
+		}
+		nIn++
 		var sql string
 		ok := true
 		var rerr error
